@@ -334,4 +334,32 @@ theorem handedIn_flatten_filter {κ : Type} [DecidableEq κ] (k : κ) (c : Bool)
     congr 1
     exact handedIn_filter k c x
 
+/-! ### `ignore_client_data` / `ignore_server_data` -/
+
+theorem processPacket_ignored (f : Flow) (p : Pkt) (h : f.ignoreData = true) : f.processPacket p = (f.pre p, none, false) := by
+  have := (pre_fields f p).2.2.2.2.2.1
+  unfold Flow.processPacket
+  simp [this, h]
+
+/-- a flow told to ignore data packets still follows the connection state (and its ACK tracker), but reassembles nothing
+    and makes no data / out-of-order callback — for good -/
+theorem stepIn_ignored (acl : Bool) (f : Flow) (p : Pkt) (h : f.ignoreData = true) :
+    f.stepIn acl p = f.pre p ∧ (f.stepIn acl p).ignoreData = true ∧ f.handed p = none ∧
+    (f.processPacket p).2.1 = none := by
+  have hi := (pre_fields f p).2.2.2.2.2.1
+  unfold Flow.stepIn Flow.handed
+  rw [processPacket_ignored f p h]
+  simp [hi, h]
+
+theorem feedHanded_ignored (acl : Bool) (ps : List Pkt) (f : Flow) (h : f.ignoreData = true) :
+    Flow.feedHanded acl f ps = [] ∧ (f.feed acl ps).ignoreData = true := by
+  induction ps generalizing f with
+  | nil => exact ⟨rfl, h⟩
+  | cons p ps ih =>
+    obtain ⟨_, h2, h3, _⟩ := stepIn_ignored acl f p h
+    obtain ⟨i1, i2⟩ := ih (f.stepIn acl p) h2
+    refine ⟨?_, i2⟩
+    show (f.handed p).toList ++ Flow.feedHanded acl (f.stepIn acl p) ps = []
+    rw [h3, i1]; rfl
+
 end Tins.SF
